@@ -115,7 +115,7 @@ class Universe:
         L = []
         if self.future:
             L.append("from __future__ import annotations")
-        L += ["import enum", "from dataclasses import dataclass, field", "from pathlib import Path", "from typing import Any",
+        L += ["import enum", "from dataclasses import dataclass, field", "from pathlib import Path", "from typing import Any, Optional, Union",
               "from pyoak.node import ASTNode", "from pyoak.origin import NO_ORIGIN", "",
               f"class {self.enum_name}(enum.Enum):", "    RED = 1", "    GREEN = 'g'", "    BLUE = 3", ""]
         for c in self.classes:
@@ -145,6 +145,10 @@ class Universe:
                 ann = u
             elif f.role == "Opt":
                 ann = u + " | None"
+                if (len(f.name) + len(u)) % 3 == 0:
+                    # the older spellings of the same annotation: typing.Optional / typing.Union are not types.UnionType
+                    # objects (seeded change C12-13: optionality recognised for the `X | None` spelling only)
+                    ann = f"Optional[{u}]" if len(f.child_types) == 1 else "Union[" + ", ".join(f.child_types) + ", None]"
             elif f.fixed:
                 ann = "tuple[" + ", ".join([u] * f.fixed) + "]"
             else:
